@@ -213,6 +213,33 @@ func (c *Ctx) ruleConvertedKeys(rule string, m *core.Module, fns map[*ssa.Functi
 	}
 }
 
+// singleEntryMap: the loop is entered only where `len(M) == 1` is known for the SSA value M it ranges over.
+func singleEntryMap(l *mapLoop) bool {
+	for _, cond := range core.CondsAt(l.header) {
+		bin, ok := cond.V.(*ssa.BinOp)
+		if !ok {
+			continue
+		}
+		isEq := (bin.Op == token.EQL && cond.True) || (bin.Op == token.NEQ && !cond.True)
+		if !isEq {
+			continue
+		}
+		for _, pr := range [][2]ssa.Value{{bin.X, bin.Y}, {bin.Y, bin.X}} {
+			call, isCall := pr[0].(*ssa.Call)
+			if !isCall {
+				continue
+			}
+			if bi, isBI := call.Call.Value.(*ssa.Builtin); !isBI || bi.Name() != "len" || call.Call.Args[0] != l.mapVal {
+				continue
+			}
+			if one, isConst := core.ConstInt(pr[1]); isConst && one == 1 {
+				return true
+			}
+		}
+	}
+	return false
+}
+
 func (c *Ctx) stableIn(m *core.Module, fn *ssa.Function, p string) string {
 	if m == c.M {
 		return c.stable(fn, p)
@@ -1282,6 +1309,10 @@ func (c *Ctx) isDuplicateReject(l *mapLoop, lk *ssa.Lookup) bool {
 // kind, accumulations (n = n + 1, s = append(s, k)) are the business of checkLoopAccumulation.
 func (c *Ctx) checkLastWriter(rule string, m *core.Module, l *mapLoop, base, pos string) {
 	if !l.hasBackEdge {
+		return
+	}
+	if singleEntryMap(l) {
+		// the loop header is reached only where len(the very map value that is ranged over) == 1: one iteration, no order
 		return
 	}
 	keys := loopKeys(l)
